@@ -76,3 +76,13 @@ func (cc *Conn) VerifBlockWise() interface{} {
 func (cc *Conn) VerifObservationHandler() interface{} {
 	return cc.observationHandler
 }
+
+// VerifMsgIDLockCount returns how many goroutines hold or wait for the per-message-ID lock of mid.
+func (cc *Conn) VerifMsgIDLockCount(mid int32) int {
+	cc.msgIDMutex.ml.Lock()
+	defer cc.msgIDMutex.ml.Unlock()
+	if e, ok := cc.msgIDMutex.ma[mid]; ok {
+		return int(e.cnt)
+	}
+	return 0
+}
